@@ -21,12 +21,20 @@
                                   a text element only as its last byte; a final text element does not end in space,
                                   CR or LF; the expression of a placeable is not a term attribute; every select
                                   has exactly one default variant and a selector of an admissible kind
+     C04_parser_output_utf8       if the input is a Rust str (utf8_valid bs), every string of the tree the parser returns
+                                  is valid UTF-8 (Syntax/ParserUtf8.v: every string is a slice of the source between
+                                  character boundaries, a final text element trimmed of ASCII white space)
    PROVED FOR EVERY PARSER OUTPUT WHOSE JOINED TREE IS WELL-FORMED, both serializer options:
+     C04_roundtrip_str_inputs_partial   for every Rust str bs (utf8_valid bs = true) and every tree t with
+                                  parse bs = Done (t, errs) such that map join_entry t satisfies Render.wf_resource:
+                                  round trip and fixed point (the UTF-8 premise of the next theorem is discharged
+                                  by C04_parser_output_utf8)
      C04_roundtrip_parser_outputs_partial   for every bs and every tree t with parse bs = Done (t, errs) such that
                                   map join_entry t (adjacent text elements joined) satisfies Render.wf_resource and
                                   WfUtf8.wf_utf8_resource: round trip (no errors, same normal form) and fixed
                                   point.  (Syntax/ParserBridge.v: the shape theorem gives the split-tree half of
-                                  snest_resource, WfComplete the joined-tree half.)  The premise is decidable, so
+                                  snest_resource, WfComplete the joined-tree half.)  The premise is the executable
+                                  boolean Coverage.c04_covered t (C04_roundtrip_covered_partial), so
                                   the remaining gap of C04 is explicit: parser outputs whose joined tree is not
                                   well-formed in the sense of Render.v -- Junk, a zero-line comment (D7), a blank
                                   line inside a pattern that keeps spaces beyond the common indentation
@@ -129,7 +137,7 @@ From FluentV Require Import Syntax.ParserModel Syntax.SerializerModel Syntax.Ser
 From FluentV Require Import Syntax.Render Syntax.RoundTrip Syntax.SerializerRoundTrip.
 From FluentV Require Import Syntax.EntryLoop Syntax.RoundTripML Syntax.RoundTripSel Syntax.SerializerML Syntax.SerializerSel.
 From FluentV Require Import Syntax.WfUtf8 Syntax.RoundTripNest Syntax.WfComplete Syntax.SerializerNest.
-From FluentV Require Import Syntax.ParserShape Syntax.ParserBridge.
+From FluentV Require Import Syntax.ParserShape Syntax.ParserUtf8 Syntax.ParserBridge Syntax.Coverage.
 
 (* ---- "serialising ... yields" : the serializer returns for every tree ---- *)
 Theorem C04_serialize_total :
@@ -356,6 +364,32 @@ Proof.
   destruct (parse_serialize_snest d wj t Hd) as (t2 & Es & Ep & Hn & _ & Efix).
   rewrite Es in Hs. injection Hs as <-.
   exists t2, []. rewrite (g_no_junk (snest_pok d) t wj Hd). repeat split; assumption.
+Qed.
+
+Theorem C04_parser_output_utf8 :
+  forall bs t errs, utf8_valid bs = true -> parse bs = Done (t, errs) -> wf_utf8_resource t = true.
+Proof. exact parse_utf8. Qed.
+
+(* for a Rust str as input the UTF-8 premise is not needed *)
+Theorem C04_roundtrip_str_inputs_partial :
+  forall bs t errs, utf8_valid bs = true -> parse bs = Done (t, errs) -> wf_resource (map join_entry t) = true ->
+  forall with_junk s, serialize_with_options with_junk t = Done s ->
+  exists t2 errs2, parse s = Done (t2, errs2) /\ norm t2 = norm (drop_junk_unless with_junk t) /\ errs2 = [] /\
+                   serialize_with_options with_junk t2 = Done s.
+Proof.
+  intros bs t errs Hb Hp Hw. apply (C04_roundtrip_parser_outputs_partial bs t errs Hp Hw).
+  apply join_utf8, (parse_utf8 bs t errs Hb Hp).
+Qed.
+
+(* the same with the executable premise Coverage.c04_covered (for the harness: which parser outputs are covered) *)
+Theorem C04_roundtrip_covered_partial :
+  forall bs t errs, parse bs = Done (t, errs) -> c04_covered t = true ->
+  forall with_junk s, serialize_with_options with_junk t = Done s ->
+  exists t2 errs2, parse s = Done (t2, errs2) /\ norm t2 = norm (drop_junk_unless with_junk t) /\ errs2 = [] /\
+                   serialize_with_options with_junk t2 = Done s.
+Proof.
+  intros bs t errs Hp Hc. unfold c04_covered in Hc. apply andb_prop in Hc as [Hw Hu].
+  apply (C04_roundtrip_parser_outputs_partial bs t errs Hp Hw Hu).
 Qed.
 
 (* ---- nested call arguments (SerializerNest.snest_resource d) ---- *)
